@@ -26,6 +26,7 @@ ASSUMPTIONS = ['where the property is silent (a pass inside a jump-off, moving t
                'has attempted or retired, a competition in which nobody clears anything) the implementation\'s answer is '
                'accepted and the history is cut there (counted as truncated:*)',
                'unknown bibs are not part of the alphabet (the property quantifies over the competition\'s bibs)']
+RULE = RULE + '; where the reference model stops giving verdicts (pass in a jump-off, bar moved early, nobody cleared anything) plays and machine runs continue for 25-40 calls under the universal clauses only (no trial after retiring / clearing / passing / a fourth attempt, nothing after finished or drawn, stage never regresses, refusals change nothing)'
 
 BIBS = ['A', 'B', 'C', 'D']
 
